@@ -22,6 +22,7 @@ def run(rep):
     rep.guard(c15.n8, rep, w, 'C14')   # a count of module bodies in progress must come down when a body is left by an exception
     import cache
     rep.guard(cache.cc1, rep, w, 'C14')     # a remembered global / attribute look-up must not outlive a write to the table it came from
+    rep.guard(cache.cc2, rep, w, 'C14')
     rep.guard(c08.x9, rep, w)     # the active module is re-read from the frame whenever the frame list changes (unwinding out of another module)
     rep.guard(c08.x7, rep, w)     # an ImportError that was delivered to a handler must not be followed by further pushes in the import handler
 
